@@ -28,6 +28,7 @@ type loggerSpec struct {
 	SharedGroup bool // the logger-level attributes include the shared group value
 	CtxKeys     bool // the logger extracts the request id from the call's context (string key and Stringer key)
 	LevelWriter bool // the logger has per-level writers (for Warn and Error; they are the same recorder, so routing does not change)
+	BigOwn      bool // with OwnAttrs: 1100 own attributes (more than any scratch list is ever pre-sized for), unsorted
 	Adapter     bool // calls go through a log/slog Logger derived with With(...) from a handler on this logger, without attributes of their own
 }
 
@@ -76,6 +77,8 @@ func mix(x uint64) uint64 {
 }
 
 var stackErr = errorsv3.New("stack carrying error")
+
+const bigOwnN = 1100 // above the package's largest pre-sized scratch list (1024)
 
 // bigValue is a string of about 5 KB that is different for every call.
 func bigValue(id string) string { return strings.Repeat(id+" ", 5200/(len(id)+1)) }
@@ -169,6 +172,15 @@ func run(t *rapid.T, test string, wl workload) {
 		if ls.OwnAttrs {
 			own[i] = []vlib.ExpAttr{{Key: "svc", Val: vlib.Value{Kind: "string", V: names[i]}}, {Key: "n", Val: vlib.Value{Kind: "int", V: i}}}
 			lg.Set("svc", names[i], "n", i)
+			if ls.BigOwn {
+				var args []any
+				for j := bigOwnN - 1; j >= 0; j-- {
+					k := fmt.Sprintf("own%04d", (j*7)%bigOwnN)
+					own[i] = append(own[i], vlib.ExpAttr{Key: k, Val: vlib.Value{Kind: "int", V: 1000*i + j}})
+					args = append(args, k, 1000*i+j)
+				}
+				lg.Set(args...)
+			}
 		}
 		if ls.SharedGroup {
 			own[i] = append(own[i], sharedExp)
@@ -507,6 +519,9 @@ func run(t *rapid.T, test string, wl workload) {
 		if ls.LevelWriter {
 			sharing["per-level-writers"] = true
 		}
+		if ls.BigOwn && ls.OwnAttrs {
+			sharing["1100-logger-attributes"] = true
+		}
 		if ls.Adapter {
 			sharing["derived-log/slog-logger"] = true
 		}
@@ -553,7 +568,7 @@ func genWorkload(t *rapid.T, maxCalls int) workload {
 		ls := loggerSpec{Format: rapid.SampledFrom([]string{"json", "logfmt", "color"}).Draw(t, "format"), Parent: -1,
 			OwnAttrs: rapid.Bool().Draw(t, "ownAttrs"), SharedGroup: rapid.IntRange(0, 2).Draw(t, "loggerSharedGroup") == 0,
 			CtxKeys: rapid.IntRange(0, 2).Draw(t, "ctxKeys") == 0, LevelWriter: rapid.IntRange(0, 2).Draw(t, "levelWriter") == 0,
-			Adapter: rapid.IntRange(0, 4).Draw(t, "viaLogSlog") == 0}
+			Adapter: rapid.IntRange(0, 4).Draw(t, "viaLogSlog") == 0, BigOwn: rapid.IntRange(0, 15).Draw(t, "bigOwnAttrs") == 0}
 		if ls.Adapter {
 			ls.OwnAttrs, ls.SharedGroup, ls.CtxKeys = false, false, false // the handler path prints the record's and the derived attributes only
 		}
@@ -561,6 +576,11 @@ func genWorkload(t *rapid.T, maxCalls int) workload {
 			ls.Parent = rapid.IntRange(0, i-1).Draw(t, "parent")
 		}
 		wl.Loggers = append(wl.Loggers, ls)
+	}
+	for _, ls := range wl.Loggers {
+		if ls.BigOwn && ls.OwnAttrs && maxCalls > 200 {
+			maxCalls = 200 // every record of such a logger has 1100 attributes to print and to check
+		}
 	}
 	wl.G = rapid.SampledFrom([]int{2, 3, 4, 8, 16, 32, 64}).Draw(t, "G")
 	wl.N = rapid.IntRange(1, 200).Draw(t, "N")
@@ -594,6 +614,11 @@ func TestStress(t *testing.T) {
 		wl := genWorkload(t, 64*150)
 		wl.G = 64
 		wl.N = rapid.IntRange(50, 150).Draw(t, "N64")
+		for _, ls := range wl.Loggers {
+			if ls.BigOwn && ls.OwnAttrs {
+				wl.N = 3 // 1100 attributes per record
+			}
+		}
 		run(t, "TestStress", wl)
 	})
 }
